@@ -1134,6 +1134,23 @@ def norm_ast(n):
     out = {kk: norm_ast(v) for kk, v in n.items()}
     if k == "Arm":
         out["body"] = unblock(out["body"])
+    if k == "Expr::If":
+        # `if !(c) { B } else { A }` reads `if c { A } else { B }` (a plain else block only: `else if` chains keep their order)
+        c = out.get("cond")
+        inner = c
+        while kind(inner) in ("Expr::Paren", "Expr::Group"):
+            inner = inner["expr"]
+        eb = out.get("else_branch")
+        els = (eb[1] if isinstance(eb, list) else eb) if eb else None
+        if kind(inner) == "Expr::Unary" and kind(inner.get("op")) == "UnOp::Not" and els is not None and kind(els) == "Expr::Block":
+            pos = inner["expr"]
+            while kind(pos) in ("Expr::Paren", "Expr::Group"):
+                pos = pos["expr"]
+            new_then = els["block"]
+            new_else = {"_": "Expr::Block", "attrs": [], "block": out["then_branch"], "label": None}
+            out["cond"] = pos
+            out["then_branch"] = new_then
+            out["else_branch"] = [eb[0], new_else] if isinstance(eb, list) else new_else
     return out
 
 
